@@ -22,14 +22,26 @@ def grid(rnd, quick):
                     pass
                 combos = [(0, 0, False, False), (3, 0, True, False), (2, 2, True, False), (0, 3, False, False), (1, 0, False, True), (3, 1, False, False)]
                 if quick:
-                    combos = rnd.sample(combos, 2)
+                    combos = [combos[1]] + rnd.sample([combos[0]] + combos[2:], 1)   # always: inbound in flight behind a slow callback
                 for (inin, inout, slow, partial) in combos:
                     if cause == "timer_disconnect" and (inin or inout or partial):
                         continue
                     for buf in ((rnd.choice([0, 1, 10]),) if quick else (0, 1, 10)):
                         out.append(dict(id="lc-%d" % k, role=role, cause=cause, phase=phase, inIn=inin, inOut=inout, buf=buf,
-                                        slowCb=slow, partial=partial))
+                                        slowCb=slow, partial=partial, cause2="", gapMs=0))
                         k += 1
+    # two overlapping causes: a local stop / close and the peer going away shortly before or after (accepting side)
+    for c1, c2 in (("handler_stop", "peer_close"), ("handler_stop", "peer_reset"), ("peer_close", "handler_stop"), ("local_close", "peer_close"),
+                   ("peer_reset", "local_close"), ("timer_disconnect", "peer_close")):
+        for phase in (("logged",) if quick else ("prelogon", "logged", "logout")):
+            for gap in ((0, 5, 40) if not quick else (rnd.choice([0, 5]), 40)):
+                if c1 == "timer_disconnect":
+                    gap = 4300 + gap
+                    if phase != "logged":
+                        continue
+                out.append(dict(id="lc-%d" % k, role="acceptor", cause=c1, phase=phase, inIn=rnd.choice([0, 2]), inOut=rnd.choice([0, 1]),
+                                buf=rnd.choice([0, 1, 10]), slowCb=rnd.random() < 0.5, partial=False, cause2=c2, gapMs=gap))
+                k += 1
     return out
 
 
